@@ -154,6 +154,7 @@ impl TraversalMut for DfsPre {
         for _ in 0..self.last_push {
             self.stack.pop();
         }
+        self.last_push = 0;
     }
 
     fn next<N, const K: usize>(&mut self, tree: &Tree<N, K>) -> Option<DfsNodeData> {
@@ -228,6 +229,7 @@ impl TraversalMut for DfsEdge {
         for _ in 0..self.last_push {
             self.stack.pop();
         }
+        self.last_push = 0;
     }
 
     fn next<N, const K: usize>(&mut self, tree: &Tree<N, K>) -> Option<Self::Item> {
@@ -292,6 +294,7 @@ impl TraversalMut for Bfs {
         for _ in 0..self.last_push {
             self.queue.pop_back();
         }
+        self.last_push = 0;
     }
 
     fn next<N, const K: usize>(&mut self, tree: &Tree<N, K>) -> Option<DfsNodeData> {
